@@ -50,7 +50,7 @@ Envs == IF Faults
              \cup (IF Kind = "dec"
                    THEN { [ft |-> 0, fs |-> 0, eos |-> e, bad |-> 0] : e \in Tasks }
                         \cup { [ft |-> 0, fs |-> 0, eos |-> 0, bad |-> b] : b \in Tasks }
-                        \cup { [ft |-> 0, fs |-> 0, eos |-> e, bad |-> b] : e \in Tasks, b \in Tasks }
+                        \cup UNION { { [ft |-> 0, fs |-> 0, eos |-> e, bad |-> b] : b \in 1..(e-1) } : e \in Tasks }
                    ELSE {})
         ELSE { [ft |-> 0, fs |-> 0, eos |-> 0, bad |-> 0] }
 
@@ -152,6 +152,9 @@ AllDone == mainpc = "after" /\ \A k \in Tasks : pc[k] = "done"
 Next == (\E k \in Tasks : Task(k)) \/ Wait \/ (AllDone /\ UNCHANGED vars)
 
 Spec == Init /\ [][Next]_vars /\ \A k \in Tasks : WF_vars(Task(k)) /\ WF_vars(Wait)
+
+\* the same behaviours without fairness (state-graph dump: no liveness checking needed)
+DumpSpec == Init /\ [][Next]_vars
 
 \* ---- properties (C07) ----
 TypeOK == /\ token \in (0..N) \cup {CANCEL}
